@@ -18,7 +18,7 @@ def seed():
         return 0
 
 
-class TaskTimeout(Exception):
+class TaskTimeout(BaseException):
     pass
 
 
@@ -29,8 +29,11 @@ def _alarm(signum, frame):
 def _run_task(job):
     fn, args, limit = job
     t0 = time.time()
-    old = signal.signal(signal.SIGALRM, _alarm)
-    signal.alarm(int(limit))
+    import threading
+    use_alarm = threading.current_thread() is threading.main_thread()
+    if use_alarm:
+        old = signal.signal(signal.SIGALRM, _alarm)
+        signal.alarm(int(limit))
     try:
         res = fn(*args)
     except TaskTimeout:
@@ -38,8 +41,9 @@ def _run_task(job):
     except BaseException as e:      # noqa - report everything from workers
         res = dict(status='harness-error', detail='%s: %s' % (type(e).__name__, e), tb=traceback.format_exc()[-1500:])
     finally:
-        signal.alarm(0)
-        signal.signal(signal.SIGALRM, old)
+        if use_alarm:
+            signal.alarm(0)
+            signal.signal(signal.SIGALRM, old)
     res.setdefault('unit', str(args[0]) if args else fn.__name__)
     res['wall_s'] = round(time.time() - t0, 2)
     return res
